@@ -83,7 +83,30 @@ func genC07(c *RunCtx) []*Batch {
 			// list constants that survive folding (the program holds slices: anything that writes through them shows)
 			strs := []string{"alice", "bob", "x y", "q"}[:2+r.Intn(3)]
 			ints := []int64{3, 1, 4, 1, 5}[:2+r.Intn(4)]
-			switch r.Intn(4) {
+			switch r.Intn(6) {
+			case 4, 5:
+				// list constants past the 100-element switch of in/overlap, unsorted, against a bound list
+				big := make([]int64, 100+r.Intn(60))
+				for i := range big {
+					big[i] = int64(r.Intn(1000)) - 500
+				}
+				bigS := make([]string, 100+r.Intn(60))
+				for i := range bigS {
+					bigS[i] = fmt.Sprintf("w%d", r.Intn(1000))
+				}
+				small := make([]int64, 20+r.Intn(20)) // the SHORTER list, unsorted, also a constant of the program
+				for i := range small {
+					small[i] = int64(r.Intn(1000)) - 500
+				}
+				switch r.Intn(3) {
+				case 0:
+					t = gop("overlap", gvar("li0"), gconst(big))
+				case 1:
+					// two constants: evaluated at run time whenever constant folding is off
+					t = gop("or", gop("overlap", gconst(small), gconst(big)), gop("in", gvar("i0"), gconst(small)))
+				default:
+					t = gop("or", gop("overlap", gvar("ls0"), gconst(bigS)), gop("overlap", gconst(big), gvar("li0")))
+				}
 			case 0:
 				t = gop("in", gvar("s0"), gconst(append([]string{}, strs...)))
 			case 1:
